@@ -814,6 +814,65 @@ func fields(o hx.Opts) {
 	}
 }
 
+// ---------------------------------------------------------------- trace (code leg of Syntax/Interactive.v)
+
+type traceObs struct {
+	Mode   string  `json:"mode"`
+	ID     string  `json:"id"`
+	Hex    string  `json:"hex"`
+	Lang   string  `json:"lang"`
+	Events [][]int `json:"events"` // [0,rnl,line,inc] = ERead ; [1,id,err,nl,line,inc] = EStmt
+	Outs   [][]int `json:"outs"`   // real InteractiveSeq callbacks: [len(batch), incomplete, err]
+}
+
+type recReader struct {
+	rd  io.Reader
+	p   *syntax.Parser
+	evs *[][]int
+}
+
+func (r *recReader) Read(b []byte) (int, error) {
+	rnl, line, _, inc := syntax.VerifInteractiveState(r.p)
+	*r.evs = append(*r.evs, []int{0, b2i(rnl), int(line), b2i(inc)})
+	return r.rd.Read(b)
+}
+
+func b2i(b bool) int {
+	if b {
+		return 1
+	}
+	return 0
+}
+
+func traceCase(id, src string, cfg hs.Cfg) (t traceObs, ok bool) {
+	t = traceObs{Mode: "trace", ID: id, Hex: hx.Hex(src), Lang: cfg.Lang.String()}
+	defer func() {
+		if r := recover(); r != nil {
+			ok = false
+		}
+	}()
+	p := cfg.New()
+	var evs [][]int
+	n := 0
+	for _, err := range p.StmtsSeq(&recReader{rd: &lineReader{src: src}, p: p, evs: &evs}) {
+		_, line, nl, inc := syntax.VerifInteractiveState(p)
+		evs = append(evs, []int{1, n, b2i(err != nil), b2i(nl), int(line), b2i(inc)})
+		n++
+		if len(evs) > 400 {
+			return t, false
+		}
+	}
+	t.Events = evs
+	real, pan, hung := interRun(src, cfg, false)
+	if pan != "" || hung {
+		return t, false
+	}
+	for _, ev := range real {
+		t.Outs = append(t.Outs, []int{len(ev.Stmts), b2i(ev.Incomplete), b2i(ev.Err != "")})
+	}
+	return t, len(evs) <= 400
+}
+
 // callBare runs one entry point without touching any option.
 func callBare(p *syntax.Parser, entry, src string) hs.Result { return hs.Call(p, entry, src) }
 
@@ -852,6 +911,21 @@ func main() {
 		}
 	case "fields":
 		fields(o)
+	case "trace":
+		ins := inputs(o.Seed, o.Tier, o.N)
+		r := hx.Rand(o.Seed, 803)
+		for _, in := range ins {
+			if len(in[1]) > 300 {
+				continue
+			}
+			src := in[1]
+			if r.IntN(3) > 0 && !strings.HasSuffix(src, "\n") {
+				src += "\n"
+			}
+			if t, ok := traceCase(in[0], src, hs.Cfg{Lang: hs.Langs[r.IntN(len(hs.Langs))], Keep: r.IntN(2) == 0}); ok {
+				hx.Emit(t)
+			}
+		}
 	case "one":
 		// replay: -in FILE holding "<mode> <lang> <hex>"
 		panic("use check --replay")
